@@ -192,6 +192,26 @@ Example C14_example_switch :
   run_tgt (compile_program C14_ex) 2000 (entry C14_ex 3) [VInt 5] = THalt [VInt 1302].
 Proof. repeat split; vm_compute; reflexivity. Qed.
 
+(* block scoping: the first clause declares the parameter's name again (its own slot, gone at the end of the clause);
+   the second clause, the default clause (a write), the statement after the switch and the later iterations mean
+   the parameter.  x = 5: 0+5, +5+5, x=6 +6, +30+6 = 57 *)
+Definition C14_ex_shadow : func := {| f_params := [0%N]; f_nres := 1; f_body :=
+  SSeq (SDecl 1%N (ELit 0))
+  (SSeq (SFor (SDecl 2%N (ELit 0)) (EBin Lt (EVar 2%N) (ELit 4)) (SInc 2%N)
+          (SSeq (SSwitch (Some (EBin Mod (EVar 2%N) (ELit 3)))
+                   (CCase true [ELit 0] (SSeq (SDecl 0%N (EBin Mul (EVar 2%N) (ELit 10))) (SOpAssign 1%N Add (EVar 0%N)))
+                   (CCase true [ELit 1] (SOpAssign 1%N Add (EVar 0%N))
+                   (CDefault (SAssign 0%N (EBin Add (EVar 0%N) (ELit 1)))))))
+                (SOpAssign 1%N Add (EVar 0%N))))
+        (SReturn [EVar 1%N])) |}.
+
+Example C14_example_shadow_in_clause :
+  run_src 200 [C14_ex_shadow] 0 [VInt 5] = Ok [VInt 57] /\
+  run_tgt (compile_program [C14_ex_shadow]) 2000 (entry [C14_ex_shadow] 0) [VInt 5] = THalt [VInt 57] /\
+  (* the inner declaration has its own slot: the clause stores to local 2, the other clauses read argument 0 *)
+  In (IStLoc 2) (compile_program [C14_ex_shadow]) /\ In (IStArg 0) (compile_program [C14_ex_shadow]).
+Proof. repeat split; vm_compute; tauto. Qed.
+
 (* an integer leaving 64 bits is undefined in the source semantics: the theorems say nothing about such runs *)
 Example C14_example_overflow_undefined :
   run_src 50 [{| f_params := [0%N]; f_nres := 1; f_body := SReturn [EBin Mul (EVar 0%N) (EVar 0%N)] |}] 0 [VInt (2 ^ 32)] = Undef.
